@@ -31,16 +31,19 @@ MAX_PATH = 2
 
 
 class Summary:
-    __slots__ = ('mut', 'ret', 'fields', 'sinks')
+    __slots__ = ('mut', 'ret', 'fields', 'sinks', 'shared', 'ret_shared')
 
     def __init__(self):
+        self.shared = {}       # label -> (node, description, chain): in-place writes into storage that outlives the call
+        self.ret_shared = set()  # labels of shared storage the return value may alias
         self.mut = set()       # (param index, path)
         self.ret = set()       # (param index, path)
         self.fields = {}       # for __init__/__new__: attr -> set of (param index, path)
         self.sinks = {}        # (param index, path) -> (node, description, chain tuple)
 
     def sig(self):
-        return (frozenset(self.mut), frozenset(self.ret), tuple(sorted((k, frozenset(v)) for k, v in self.fields.items())))
+        return (frozenset(self.mut), frozenset(self.ret), tuple(sorted((k, frozenset(v)) for k, v in self.fields.items())),
+                frozenset(self.shared), frozenset(self.ret_shared))
 
 
 class FuncAnalysis:
@@ -72,12 +75,16 @@ class FuncAnalysis:
                 if key not in self.sum.mut:
                     self.sum.mut.add(key)
                     self.sum.sinks[key] = (node, why, chain)
-            elif o[0] == 'new':
-                pass
+            elif o[0] == 'shared':
+                if o[1] not in self.sum.shared:
+                    self.sum.shared[o[1]] = (node, why, chain)
 
     def field(self, origins, attr):
         out = set()
         for o in origins:
+            if o[0] == 'shared':
+                out.add(o)
+                continue
             if o[0] == 'p':
                 path = o[2] + (attr,)
                 out.add(('p', o[1], path[:MAX_PATH]))
@@ -96,7 +103,13 @@ class FuncAnalysis:
         if e is None:
             return frozenset()
         if isinstance(e, ast.Name):
-            return env.get(e.id, frozenset())
+            if e.id in env:
+                return env[e.id]
+            r = self.repo.resolve_global(self.f.module, e.id)
+            if r and r[0] == 'var' and isinstance(r[3], ast.Call) and (dotted(r[3].func) or '').startswith('torch.') and \
+                    (dotted(r[3].func) or '').split('.')[-1] in ('tensor', 'zeros', 'ones', 'eye', 'empty', 'arange', 'full', 'rand', 'randn'):
+                return frozenset([('shared', 'module-level tensor %s.%s' % (r[1].name, r[2]))])
+            return frozenset()
         if isinstance(e, ast.Attribute):
             d = dotted(e)
             if d is not None and d in env:
@@ -228,6 +241,13 @@ class FuncAnalysis:
                 s = self.S.get(g.fq)
                 if s is None:
                     continue
+                if any(d.split('.')[-1] in ('lru_cache', 'cache', 'cached_property') for d in g.decorator_names()):
+                    # the object returned by a memoising function is shared by all its callers
+                    result |= frozenset([('shared', 'result of cached function %s' % g.fq.split(':')[1])])
+                for lab in s.ret_shared:
+                    result |= frozenset([('shared', lab)])
+                for lab, (snode, swhy, schain) in s.shared.items():
+                    pass
                 binding = self.bind_args(g, how, c, argv, kwv, recv, env)
                 for (pi, path) in s.mut:
                     if pi in binding:
@@ -432,6 +452,8 @@ class FuncAnalysis:
                 for o in v:
                     if o[0] == 'p':
                         self.sum.ret.add((o[1], o[2]))
+                    elif o[0] == 'shared':
+                        self.sum.ret_shared.add(o[1])
         elif isinstance(st, ast.If):
             self.A(st.test, env)
             e1, e2 = dict(env), dict(env)
@@ -489,9 +511,9 @@ class FuncAnalysis:
             self.stmt(st, env)
 
 
-def compute_summaries(repo, max_rounds=12):
-    funcs = list(repo.all_functions())
-    S = {f.fq: Summary() for f in funcs}
+def compute_summaries(repo, max_rounds=12, only_module=None):
+    funcs = [f for f in repo.all_functions() if only_module is None or f.module.name == only_module]
+    S = {f.fq: Summary() for f in repo.all_functions()}
     stats = {}
     rounds = 0
     for rounds in range(1, max_rounds + 1):
